@@ -27,6 +27,9 @@ MANIFEST = dict(
     note="Values are exact dyadic rationals in the TLC-generated sessions (bit-exact comparison) and rounded to 1/4096 with tolerance 3 in the random sessions; real-power easings are only checked for end points, interval and direction; Quat (slerp) is not covered. The tweener modulator duplicates Parameter's logic and is not driven separately. Parameters linked to modulators (Value::FromModulator) are out of scope. A clock that pauses, is reset or disappears after a clock-started tween began is treated as a finding candidate (findings/C06-clock), not generated at property level unless listed in known_findings.json.")
 
 TYPES = ["f64", "f32", "db", "pan", "mix", "rate", "semi", "dur", "cspeed", "vec3"]
+# random (rounded) sessions only: clock speeds whose first tween crosses units (ticks per second -> seconds per tick,
+# seconds per tick -> ticks per minute); the curve is linear in the unit of the target
+TYPES_LOOSE = TYPES + ["cspeed_s", "cspeed_m"]
 EASES = [("lin", 1), ("in", 2), ("out", 2), ("inout", 2), ("in", 3), ("out", 3), ("inout", 3), ("in", 1), ("inout", 1)]
 INVS = "INVARIANTS PropertyHolds TypeOK StagnantIsIdle IdleAtTarget InRange TimeBelowDur ExactArith MonAgrees"
 WITNESSES = ["W_MidRetarget", "W_DelayLag", "W_ClockStart", "W_SubUpdate", "W_ZeroDur", "W_Curve", "W_ExactEnd"]
@@ -198,7 +201,7 @@ def gen_random(tier, rng):
     scen = []
     n = 300 if tier == "quick" else 6000
     for k in range(n):
-        ty = TYPES[k % len(TYPES)]
+        ty = TYPES_LOOSE[k % len(TYPES_LOOSE)]
         steps = []
         cpos, began, pending_clk = rng.randint(0, 3), False, None
         for _ in range(rng.randint(10, 40)):
